@@ -1,8 +1,49 @@
 package gen
 
+// unnamedEntry: modules with unnamed globals/functions/locals (each alone in its module).
+func unnamedEntry() Entry {
+	return Entry{Name: "unnamed", Build: func(f *Frag) {
+		f.Solo = true
+		switch f.N("form", 7) {
+		case 6: // two unnamed functions with equally named labels; blockaddress into both
+			f.TopLine("@ba0 = global i8* blockaddress(@0, %%a)")
+			f.TopLine("@ba1 = global i8* blockaddress(@1, %%a)")
+			f.TopLine("define void @0() {\nentry:\n  br label %%a\na:\n  br label %%extra\nextra:\n  ret void\n}")
+			f.TopLine("define void @1() {\nentry:\n  br label %%a\na:\n  ret void\n}")
+		case 0: // two unnamed functions, each with its own blocks, blockaddress into both
+			f.TopLine("@ba0 = global i8* blockaddress(@0, %%only0)")
+			f.TopLine("@ba1 = global i8* blockaddress(@1, %%only1)")
+			f.TopLine("define void @0() {\nentry:\n  br label %%only0\nonly0:\n  ret void\n}")
+			f.TopLine("define void @1() {\nentry:\n  br label %%only1\nonly1:\n  ret void\n}")
+		case 1: // unnamed globals and functions, unnamed locals
+			f.TopLine("@0 = global i32 1")
+			f.TopLine("@1 = global i32* @0")
+			f.TopLine("define i32 @2(i32, i32) {\n  %%3 = add i32 %%0, %%1\n  %%4 = load i32, i32* @0\n  br label %%5\n5:\n  %%6 = add i32 %%3, %%4\n  ret i32 %%6\n}")
+			f.TopLine("define i32 @3() {\n  %%1 = call i32 @2(i32 1, i32 2)\n  ret i32 %%1\n}")
+		case 2: // implicit numbering
+			f.TopLine("define i32 @%sf(i32, i32) {\n  add i32 %%0, %%1\n  call void @%sv()\n  mul i32 %%3, 2\n  ret i32 %%4\n}", f.P, f.P)
+			f.TopLine("declare void @%sv()", f.P)
+		case 3: // uselistorder_bb and blockaddress in an unnamed function
+			f.TopLine("@p = global i8* blockaddress(@0, %%bb)")
+			f.TopLine("@q = global i8* blockaddress(@0, %%bb)")
+			f.TopLine("define void @0() {\nentry:\n  br label %%bb\nbb:\n  ret void\n}")
+			f.TopLine("uselistorder_bb @0, %%bb, { 1, 0 }")
+		case 4: // unnamed alias and ifunc
+			f.TopLine("@0 = global i32 0")
+			f.TopLine("@1 = alias i32, i32* @0")
+			f.TopLine("define i32 ()* @2() {\n  ret i32 ()* null\n}")
+		case 5: // numeric quoted names next to unnamed values
+			f.TopLine("@\"0\" = global i32 5")
+			f.TopLine("@0 = global i32 6")
+			f.TopLine("define i32 @1(i32 %%\"0\") {\n  %%1 = add i32 %%\"0\", 1\n  ret i32 %%1\n}")
+		}
+	}}
+}
+
 // RefEntries: reference topologies (forward, mutual, cyclic, cross-function) for C04/C05/C12.
 func RefEntries() []Entry {
 	return []Entry{
+		unnamedEntry(),
 		{Name: "ref-patterns", Build: func(f *Frag) {
 			p := f.P
 			switch f.N("form", 16) {
